@@ -79,10 +79,13 @@ def doOp (a : Json) : Except String Json := do
       | some o => pure (answer false (.ok o))
       | none => pure (J.obj [("rej", Json.str ""), ("out", Json.null), ("created", J.bool false)])
   | "delete", none => pure (answer false (.error .notServed))
-  | "main", none => pure (answer true (beforeCreate r mr zero sub))
+  | "main", none =>
+      if !KG.Gen.C20.mainAllowCreateOnUpdate then pure (answer false (.error .notServed))
+      else pure (answer true (beforeCreate r mr zero sub))
   | "status", none =>
       -- apiStep: create-on-update through the status endpoint, when it is served
-      if !r.served then pure (answer false (.error .notServed)) else pure (answer true (beforeCreate r mr zero sub))
+      if !r.served || !KG.Gen.C20.statusAllowCreateOnUpdate then pure (answer false (.error .notServed))
+      else pure (answer true (beforeCreate r mr zero sub))
   | _, _ => throw s!"unknown op {op}"
 
 def doJudge (a : Json) : Except String Json := do
